@@ -59,7 +59,8 @@ def _apply_fns(name, est):
 KEEP_LABELS = [False]
 # the supervised forest standardises the periodogram column by column; its first column (the removed mean) is rounding noise of ~1e-31, which the
 # standardisation blows up to order one, and scipy's FFT rounds differently for strided input (1.8e-15): the chosen intervals then depend on
-# the array's strides.  That is amplified floating-point noise, not container handling, so the training array keeps C order for it.
+# the array's strides (and trees that split on a feature of that noise column answer differently at apply time).  That is amplified
+# floating-point noise, not container handling, so the arrays keep C order for it.
 FIT_AMPLIFIES_ROUNDING = {"stsf"}
 
 
@@ -98,7 +99,7 @@ def run_case(case, ctx):
     X, ycls, A = pzoo.make_panel(rng, ni, nc, nt, cells=case["cells"], positive=pos, plateaus=name == "plateau", lengths=lte, integer=integer, cell_index=cidx)
     if integer:
         ctx.tag("integer-panel")
-    if A is not None and case.get("layout", "C") != "C":
+    if A is not None and case.get("layout", "C") != "C" and name not in FIT_AMPLIFIES_ROUNDING:
         # the 3-d array in another memory layout (same values): Fortran order / a transposed view of a (time, column, instance) recording
         A = np.asfortranarray(A) if case["layout"] == "F" else np.ascontiguousarray(A.transpose(2, 1, 0)).T
         ctx.tag("array-layout:" + case["layout"])
